@@ -99,6 +99,32 @@ def run(ctx):
         exp2 = [e for e in exp if e[0] != skip]
         if [g[0] for g in rec2.calls] != [e[0] for e in exp2]:
             ctx.violate("a handler mapped to None was not simply skipped", c.replay(), signature="C16:none-skip")
+        # callables of every kind are called: also objects whose truth value is False (an empty list subclass with
+        # __call__, a dispatcher whose __len__ is 0, __bool__ returning False) - only None means "skip"
+        rec2b = cfgrun.Recorder()
+
+        class FalsyList(list):
+            def __init__(self, fn):
+                super().__init__()
+                self._fn = fn
+
+            def __call__(self, v):
+                return self._fn(v)
+
+        class FalsyBool:
+            def __init__(self, fn):
+                self._fn = fn
+
+            def __bool__(self):
+                return False
+
+            def __call__(self, v):
+                return self._fn(v)
+        wrappers = [FalsyList, FalsyBool, lambda f: f]
+        h({n: wrappers[i % 3](rec2b.fn(n)) for i, n in enumerate(names_needed)})
+        if [g[0] for g in rec2b.calls] != [e[0] for e in exp]:
+            ctx.violate("a callable whose truth value is False was not called (only None entries may be skipped): called %r, expected %r"
+                        % ([g[0] for g in rec2b.calls], [e[0] for e in exp]), c.replay(), signature="C16:falsy-callable-skipped")
         # incomplete map: error, nothing called
         rec3 = cfgrun.Recorder()
         missing = rng.choice(names_needed)
